@@ -526,7 +526,7 @@ U_DOBLOCK2 = KaniUnit(
     "block; what the block binds never reaches the enclosing scope",
     modules=[("expressions.rs", "verif_scope_sites.rs")], harnesses=["u_doblock_ok", "u_doblock_failing"],
     functions=[("expressions.rs", "evaluate_ast", None), ("environment.rs", "extend", "Environment")],
-    prepare=prep_scope_sites, timeout=900, complete=False, bound="blocks of 0..=2 statements, every failure position",
+    prepare=prep_scope_sites, timeout=2400, complete=False, bound="blocks of 0..=2 statements, every failure position",
     assumptions=SITE_STUBS, dropped=["T3: the match dispatch around the DoBlock arm"])
 
 U_ENV_AUDIT = AuditUnit(
